@@ -626,3 +626,19 @@ Definition no_dead_abandoned_b (st : state) (sp : N) : bool :=
 (* the program of one forced collect over all segments: _mi_abandoned_collect(heap, force = true) of an unbound heap *)
 Definition collect_prog (nsegs nos : nat) : list op :=
   map (fun s => OVisitArena MCollect s false) (seq 0 nsegs) ++ repeat (OVisitOs MCollect false true) nos ++ [OCursorDone].
+
+(* the same in general form.  `order` = the arena segments in the order the cursor examines them (the real cursor starts at a
+   random arena and wraps around); `vl` = the cursor reaches mi_arena_segment_clear_abandoned_next_list with os_list_count = 0
+   left or not at all (OVisitLock: it takes the visit lock without visiting an entry); `nos` = cursor->os_list_count, the value
+   of subproc->abandoned_os_list_count when the cursor was initialised (os_count below at a quiescent state).
+   _mi_abandoned_collect bounds its loop by max_tries = subproc->abandoned_count: at a quiescent state that is the number of
+   marked segments of the sub-process (Proofs/AbandonCount.v), every one of them is returned by the cursor exactly once in a
+   solo run, so the bound does not cut the loop short. *)
+Definition collect_prog_of (order : list nat) (vl : bool) (nos : nat) : list op :=
+  map (fun s => OVisitArena MCollect s false) order ++ (if vl then [OVisitLock true] else []) ++
+  repeat (OVisitOs MCollect false true) nos ++ [OCursorDone].
+
+(* subproc->abandoned_os_list_count: the entries of the abandoned OS list of sub-process sp *)
+Definition os_entries (st : state) (sp : N) : list nat := filter (fun s => subproc_of st s =? sp) (os_list st).
+Definition os_count (st : state) (sp : N) : nat := length (os_entries st sp).
+
